@@ -80,13 +80,14 @@ PROPS.update({
 _GRAPH_TRUST = ['assumed contract of the built-in list (append/remove/in/index/clear; abstract list theory T1, validated against CPython lists in the thorough tier)',
                 'graph lemma axioms D1-D5, G1 (transcriptions of lemmas/Graph.lean, proved in Lean 4 + Mathlib; transcription trusted, validated on all relations over <= 4 nodes)',
                 'history induction (meta-argument): every public mutator preserves Inv on both exits, constructors establish it; closed by the encapsulation scan']
-_GRAPH_B = ['Task.children.setter, WBS.roots.setter, _ChildrenList.remove/insert/move/sort/reorder, WBS.remove/__remove/remove_all, _TaskList.remove_all, Task.__init__, WBS.__init__ - bounded stand-in only (random histories of public calls)',
+_GRAPH_B = ['Task.children.setter, WBS.roots.setter, _ChildrenList.remove (a call of the children setter), WBS.remove/__remove/remove_all, _TaskList.remove_all, Task.__init__, WBS.__init__, the operators //, <<, >> - bounded stand-in only (random histories of public calls)',
             'closure helpers assumed by contract: Task.all_children = strict descendants, all_parents = strict ancestors below the hidden root, all_predecessors/all_successors = transitive closure, _has_id_intersection, '
             '_check_no_links_to_ancestors - their bodies are covered by the bounded stand-in only (Task._attach, Task._detach and Task.__set_children are proved in their own units)']
 _GRAPH_EXPL = ('contract-based deductive verification of the core mutators: Task.parent.setter (incl. its re-entrant call through roots.append, checked against its own contract) and both dependency setters are symbolically '
                'executed from the real source; the shared invariant Inv (forest F1-F4, list objects distinct, ownership W1/W1r/WR, links symmetric M1, acyclic M2 via the Lean-proved lemma G1, no link along the hierarchy X1) is '
                'proved on the normal AND the exceptional exit for an arbitrary heap satisfying Inv - i.e. for every history - together with `rejected => heap unchanged` (C15), `rejected only for a stated reason / accepted only without one`, '
-               'and the exact effect with frame (C16). Level `other`: the children setter, the list facades other than append, WBS-level operations and the closure helpers are assumed by contract and covered by the bounded native '
+               'and the exact effect with frame (C16). The list facades are proved against those contracts (callers see only the callee contract): _ChildrenList.append / insert / move / sort / reorder and _PredecessorsList / _SuccessorsList append / remove, '
+               'as are the ownership walks Task._attach / _detach and the list-object setter __set_children. Level `other`: the children setter (and _ChildrenList.remove, which calls it), WBS-level operations, the constructors and the closure helpers are assumed by contract and covered by the bounded native '
                'stand-in (random histories over task objects sharing ids, two WBSs, stale list facades, constructors). ')
 PROPS.update({
     'C01': P('other', _GRAPH_EXPL, _GRAPH_B, _GRAPH_TRUST, design_ref='8/C01'),
